@@ -49,6 +49,12 @@ class AsyncMode(Mode, metaclass=abc.ABCMeta):
         except asyncio.CancelledError:
             pass
 
+        if future is not self._task:
+            # this is the task of an earlier run which was cancelled when the mode
+            # stopped. the mode might be running again (e.g. it was restarted
+            # right after the stop) and this must not stop the new run.
+            return
+
         # stop mode
         self.stop()
 
